@@ -200,6 +200,7 @@ class Run:
         self.loss_history = {}  # loss id -> list of (mode_weight, dataset id)
         self.known = known_signatures("C13")
         self.generating = False
+        self._canary0 = None
         self._shell = None  # the previous temporary tomography object of the live world (see tomo_for)
         self.last_result_id = None
 
@@ -333,6 +334,19 @@ class Run:
             # before the next one starts, so a new temporary may live at the same address); in the fresh world every
             # sub-step gets brand-new objects of its own
             return [self.apply(sub, None, True) if live else self.apply(sub, {}, False) for sub in st["steps"]]
+        if op == "catalogue":
+            names = getattr(importlib.import_module(f"quara.objects.{st['module']}"), st["name"])()
+            out = list(names)
+            if st.get("scribble") and isinstance(names, list):
+                names.append("edited-by-the-caller")  # the caller edits the list it was handed
+                names.reverse()
+            return out
+        if op == "m" and st["name"] == "generate_mprocess":
+            obj = get(st["on"])
+            pss = None if st.get("post") is None else [get(i) for i in st["post"]]
+            return obj.generate_mprocess(mode_backaction=st["mode"], post_selected_states=pss) if pss is not None else obj.generate_mprocess(mode_backaction=st["mode"])
+        if op == "m" and st["name"] == "__str__":
+            return str(get(st["on"]))
         if op == "m":
             obj = get(st["on"])
             if st.get("basis_arg"):
@@ -672,8 +686,52 @@ class Run:
             return [q.hs]
         return list(q.hss)
 
-    # --- oracles around one step ---------------------------------------------------------------------
+    # --- canaries: results of fixed queries that no history may change ---------------------------------
+    CATALOGUE = [("state_typical", "get_state_names"), ("state_typical", "get_state_names_1qubit"), ("state_typical", "get_state_names_2qubit"), ("povm_typical", "get_povm_names"),
+                 ("povm_typical", "get_povm_names_1qubit"), ("povm_typical", "get_povm_names_2qubit"), ("povm_typical", "get_povm_names_rank1"), ("gate_typical", "get_gate_names"),
+                 ("gate_typical", "get_gate_names_1qubit"), ("gate_typical", "get_gate_names_2qubit"), ("mprocess_typical", "get_mprocess_names_type1"), ("mprocess_typical", "get_mprocess_names_type2")]
+
+    def canaries(self):
+        """fixed queries on brand-new objects plus the process-wide settings quara's results depend on.  Evaluated before the
+        first step and after every step: whatever the history did, they answer the same."""
+        import quara.data_analysis.physicality_violation_check as pvc
+        from quara.objects.multinomial_distribution import MultinomialDistribution
+
+        out = {}
+        out["text_of_a_distribution"] = str(MultinomialDistribution(np.array([0.99999, 0.00001]), (2,)))
+        out["text_of_an_array_with_tiny_entries"] = str(np.array([0.7071067811865476, 1e-17, 0.0, 0.7071067811865476]))
+        for mod, fn in self.CATALOGUE[::3]:
+            out[f"{mod}.{fn}"] = list(getattr(importlib.import_module(f"quara.objects.{mod}"), fn)())
+        out["atol_as_expected"] = Settings.get_atol() == self.atol
+        out["ineq_const_eps"] = pvc.get_ineq_const_eps()
+        out["numpy_error_state"] = sorted(np.geterr().items())
+        out["numpy_print_options"] = sorted((k, str(v)) for k, v in np.get_printoptions().items())
+        return out
+
+    def check_canaries(self, idx, st):
+        now = self.canaries()
+        self.bump("oracle_checks", "O2_canaries")
+        if self._canary0 is None:
+            self._canary0 = now
+            return
+        for k, v in now.items():
+            if self._canary0.get(k) != v:
+                base = self._canary0[k]
+                self._canary0 = now  # report once
+                raise Violation("O2_history_independence", f"step {idx} ({st['op']} {st.get('name')}) changed what a fixed query on brand-new objects returns: {k} was {str(base)[:120]}, is {str(v)[:120]}",
+                                {"step": idx, "st": to_jsonable(st), "canary": k}, {"op": st["op"], "name": st.get("name"), "how": "canary", "canary": k})
+
     def step(self, idx, st):
+        if self._canary0 is None:
+            self.check_canaries(idx, st)
+        try:
+            self._step(idx, st)
+        finally:
+            pass
+        self.check_canaries(idx, st)
+
+    # --- oracles around one step ---------------------------------------------------------------------
+    def _step(self, idx, st):
         op = st["op"]
         sig = {"op": op, "name": st.get("name") or st.get("table") or st.get("action") or st.get("how"), "kind": self.pool[st["on"]]["kind"] if isinstance(st.get("on"), int) and st["on"] < len(self.pool) else None}
         self.kinds.append([op, sig["name"], sig["kind"]])
@@ -728,6 +786,13 @@ class Run:
             exc_live = e
             out_live = None
         after = self.snapshot_all()
+        if Settings.get_atol() != self.atol:
+            # the operation changed the process-wide tolerance and did not put it back: every later predicate, projection
+            # and constructor in the process answers for another tolerance than the caller set
+            left = Settings.get_atol()
+            Settings.set_atol(self.atol)
+            raise Violation("O2_history_independence", f"step {idx} ({op} {sig['name']}) {'raised ' + type(exc_live).__name__ + ' and ' if exc_live else ''}left the process-wide tolerance at {left} (it was {self.atol})",
+                            {"step": idx, "st": to_jsonable(st), "left": left}, dict(sig, how="global_tolerance_left_changed"))
         # ---- O4 first: a successful write into a basis corrupts every object of that system, which O1 would then
         # report for the wrong reason
         if op == "basis_write" and exc_live is None:
@@ -1043,7 +1108,7 @@ class Generator:
         self.w = {
             "m": 6, "with_var": rngc.choice([1, 3]), "modfunc": rngc.choice([1, 3]), "compose": 2, "tensor": rngc.choice([0.3, 1]), "cache": 0 if self.fault_free else rngc.choice([2, 5, 8]),
             "flip": 0 if self.fault_free else rngc.choice([0, 0.5, 1.5]), "estimate": rngc.choice([0.5, 2, 4]), "loss_eval": rngc.choice([0.5, 2]), "basis_write": 0.4, "copy_edit": 0.7, "rerun": 1.0, "dataset": 0.8,
-            "mdist": 0.8, "tomo_m": 1.5, "basis_q": 0.8, "csys_q": 0.6, "chain": 0.7, "derive": 1.2, "setq": 0.8, "util": 0.8, "bad_setter": 0 if self.fault_free else 0.6, "arith": 0.6, "basis_fn": 0.4,
+            "mdist": 0.8, "tomo_m": 1.5, "basis_q": 0.8, "csys_q": 0.6, "chain": 0.7, "derive": 1.2, "setq": 0.8, "util": 0.8, "bad_setter": 0 if self.fault_free else 0.6, "arith": 0.6, "basis_fn": 0.4, "catalogue": 0.4,
         }
         self.focus = "general" if self.fault_free else rngc.choice(["general", "general", "cache", "cache", "estimation", "estimation", "projection", "tolerance"])
         if opts.get("focus"):
@@ -1170,6 +1235,17 @@ class Generator:
             else:
                 arg = rng.randrange(len(self.pool[i].get("vecs") or self.pool[i].get("hss") or [0]))
             return {"op": "m", "on": i, "name": name, "args": [arg], "scribble": (not self.fault_free) and rng.random() < 0.2}
+        if rng.random() < 0.04:
+            return {"op": "m", "on": i, "name": "__str__", "scribble": False}
+        if kind == "povm" and rng.random() < 0.15:
+            # a measurement process derived from a measurement: every mode, with and without (enough) post-selected states
+            mode = rng.choice([0, 1, 2, 2, 3])
+            states = self.ids("state", self.pool[i]["csys"])
+            n = len(self.pool[i]["vecs"])
+            post = None
+            if states and (mode == 2 or rng.random() < 0.3):
+                post = [rng.choice(states) for _ in range(n if rng.random() < 0.8 else max(1, n - 1))]
+            return {"op": "m", "on": i, "name": "generate_mprocess", "mode": mode, "post": post, "scribble": False}
         if kind in ("state", "povm", "gate") and rng.random() < 0.06:
             # conversion into another basis - or into the very basis object the operand lives in
             return {"op": "m", "on": i, "name": "convert_basis", "basis_arg": rng.choice(["own", "own", "comp", "pauli"]), "scribble": (not self.fault_free) and rng.random() < 0.7}
@@ -1322,6 +1398,11 @@ class Generator:
                 self.pool0.append(rec)
             return {"op": "tensor", "ids": list(ids), "as_list": len(self.pool) - 1}
         return {"op": "tensor", "ids": ids}
+
+    def g_catalogue(self):
+        rng = self.rng
+        mod, fn = rng.choice(Run.CATALOGUE)
+        return {"op": "catalogue", "module": mod, "name": fn, "scribble": (not self.fault_free) and rng.random() < 0.5}
 
     def g_arith(self):
         rng = self.rng
@@ -1651,7 +1732,7 @@ class Generator:
         return {"op": "copy_edit", "on": rng.choice([j for j, r in enumerate(self.pool) if r["kind"] in QOP_KINDS])}
 
     def g_rerun(self):
-        cands = [s for s in self.history if s["op"] in ("m", "with_var", "modfunc", "compose", "arith", "basis_fn", "tensor", "estimate", "loss_eval", "tomo_m", "mdist", "basis_q", "esys_q", "csys_q", "derive", "setq_q", "util")]
+        cands = [s for s in self.history if s["op"] in ("m", "with_var", "modfunc", "compose", "arith", "basis_fn", "tensor", "catalogue", "estimate", "loss_eval", "tomo_m", "mdist", "basis_q", "esys_q", "csys_q", "derive", "setq_q", "util")]
         if not cands:
             return None
         return copy.deepcopy(self.rng.choice(cands))
@@ -1719,7 +1800,10 @@ def run_seed(seed, tier, opts):
                 idx += 1
         if gen.flip_open:
             run.steps.append({"op": "flip_end"})
-            run.step(idx, run.steps[-1])
+            try:
+                run.step(idx, run.steps[-1])
+            except Violation as e:
+                viol.append(e.v)
     finally:
         Settings.set_atol(saved)
     for k in [k for k in run.stats["probes"] if k.startswith("_")]:
